@@ -385,7 +385,7 @@ func c07(ctx *run.Ctx) {
 		}
 		// Random long words, up to 6 sub-strategies for the votes.
 		ctx.Case(fmt.Sprintf("%s/random", sh.name), func(cc *run.Case) {
-			for rep := 0; rep < ctx.Pick(40, 1200); rep++ {
+			for rep := 0; rep < ctx.Pick(150, 1500); rep++ {
 				n := cc.R.Range(0, 200)
 				k := sh.k
 				if sh.name[:3] == "and" || sh.name[:2] == "or" || sh.name[:3] == "maj" {
@@ -400,7 +400,12 @@ func c07(ctx *run.Ctx) {
 						}
 					}
 				}
-				closes := gen.Field(gen.Bars(cc.R, []string{gen.Walk, gen.Ties, gen.Plateau}[cc.R.Intn(3)], n), 'c')
+				closes := gen.Field(gen.Bars(cc.R, []string{gen.Walk, gen.Walk2, gen.Ties, gen.Plateau}[cc.R.Intn(4)], n), 'c')
+				// different currency units: the decorators must not depend on the price level
+				unit := cc.R.PickF(1, 1, 1e-3, 1e3, 1.0/128)
+				for i := range closes {
+					closes[i] *= unit
+				}
 				shape := sh
 				if k != sh.k {
 					kind := map[byte]string{'a': "and", 'o': "or", 'm': "majority"}[sh.name[0]]
